@@ -10,16 +10,20 @@ package main
 //
 //	R <pattern> <method>                                         Handle returned (between requests only)
 //	B <k> <path> <method> <who> <status> <id> <any> {<value>}*nn   request k entered its handler; everything read through the Store
-//	W <k> <code>                                                 handler k called W.WriteHeader(code)
-//	X <k> ret|rec|esc <id>                                       handler k leaves: returns / panics and the relay (Logger.Relay) recovers /
-//	                                                             panics through a relay that does not recover (escapes ServeHTTP); GetID() again
+//	W <k> <code>                                                 request k's handler called W.WriteHeader(code), or its relay (Logger.Relay: 200 at
+//	                                                             REQ_END, 500 after a recovered panic) changed W.Status to <code>
+//	F <k>                                                        handler k called W.Flush()
+//	X <k> <who> <status> <id> <any> {<value>}*nn                   everything read AGAIN at handler exit
+//	Y <k> ret|rec|esc <who> <status> <id> <any> {<value>}*nn       ... and AGAIN in the relay after the handler returned / panicked and Logger.Relay
+//	                                                             recovered / while the panic unwinds through a relay that does not recover
 //
 // S = the B events are in ticket order (one goroutine, or overlap forced with channels), C = 8 goroutines.
 // who = r<i> | nr | badinfo.  Fields hex ("-" = empty) except k, status, code.
 //
 // Go-side oracle (lines "VIOL ..."): every request is served again on a FRESH Mux with the routes registered at that
-// time; any difference in who/any/values, a non-zero status at entry, an id that changes during the request or repeats
-// within the Mux, a panic that is not the handler's own, or a failed registration is a violation.
+// time; any difference in who/any/values, a non-zero status at entry, anything but the request's own status writes changing
+// between entry, exit and the relay's second look, an id that repeats within the Mux, or a failed registration is a violation.
+// Whether a handler panic leaves ServeHTTP or is recovered by it is NOT judged (not part of C05); it is only counted.
 
 import (
 	"fmt"
@@ -96,6 +100,7 @@ type reqSpec struct {
 	path, meth string
 	behave     int
 	code       int
+	flush      int // 0 no Flush, 1 Flush before WriteHeader, 2 after
 	// forced overlap: the handler signals entered and waits for release before it goes on
 	entered, release chan struct{}
 	once             *sync.Once
@@ -107,24 +112,35 @@ func (q *reqSpec) signalEntered() {
 	}
 }
 
-type obs struct {
+type look struct {
 	who    string
 	status int
 	id     string
 	any    string
 	vals   []string
-	idExit string
-	ran    int
-	ptr    uintptr
+}
+
+type obs struct {
+	look             // at handler entry
+	exit, after look // at handler exit; in the relay after the handler
+	own     int      // W.Status as the request itself last made it
+	ownExit int      // ... at handler exit
+	ran     int
+	ptr     uintptr
 }
 
 type reqCtx struct {
 	k    int
 	spec *reqSpec
 	o    obs
+	idx  int // which handler ran (-1 no-route)
 }
 
-var allNames = []string{"a", "b", "c", "d", "e", "zz"}
+// parameter names used in patterns: case variants, prefixes and extensions of each other
+var paramPool = []string{"a", "A", "ab", "id", "ID", "b"}
+
+// the keys every handler looks up, at entry, at exit and in the relay
+var allNames = []string{"a", "A", "ab", "abc", "b", "B", "i", "id", "ID", "Id", "id2", "zz"}
 
 // world: one Mux with the observing handlers.
 type world struct {
@@ -141,15 +157,8 @@ type world struct {
 func newWorld(log bool) *world {
 	w := &world{mux: httpd.NewMux(), log: log}
 	w.lg = logger.New(logger.NewNanoHandler(io.Discard, logger.NewOptions(slog.LevelInfo, false, false)))
-	w.mux.HandleRelay(func(s *httpd.Store) {
-		c, _ := w.ctxs.Load(s.R)
-		if c != nil && c.(*reqCtx).spec.behave == bEsc {
-			s.I.HandlerFunc(s) // a relay that does not recover: the panic leaves ServeHTTP
-			return
-		}
-		w.lg.Relay(s)
-	})
-	w.mux.HandleNoRoute(w.handler("nr", -1))
+	w.mux.HandleRelay(w.relay)
+	w.mux.HandleNoRoute(w.handler(-1))
 	return w
 }
 
@@ -165,55 +174,110 @@ func (w *world) event(fields ...string) {
 
 func clone(s string) string { return string(append([]byte(nil), s...)) }
 
-func (w *world) handler(who string, idx int) httpd.HandlerFunc {
+// read: everything a handler can read through the Store; a panicking accessor is an outcome, not a crash
+func (w *world) read(s *httpd.Store, idx int) (l look) {
+	l.vals = make([]string, len(allNames))
+	l.who = "nr"
+	if idx >= 0 {
+		l.who = "r" + strconv.Itoa(idx)
+	}
+	defer func() {
+		if recover() != nil {
+			l.who = "panic" // e.g. Params.Get indexing past V
+		}
+	}()
+	if idx >= 0 {
+		if s.I == nil || s.I.Path != w.routes[idx].pat || s.I.Method != w.routes[idx].meth {
+			l.who = "badinfo"
+		}
+	} else if s.I == nil || s.I.Path != "" || s.I.Method != "" {
+		l.who = "badinfo"
+	}
+	l.status = s.W.Status
+	l.id = clone(s.GetID()) // GetID aliases the Store's buffer
+	l.any = s.RouteParamAny()
+	for i, n := range allNames {
+		l.vals[i] = s.RouteParam(n)
+	}
+	return l
+}
+
+func (l look) fields() []string {
+	f := []string{l.who, strconv.Itoa(l.status), hk.Hxs(l.id), hk.Hxs(l.any)}
+	for _, v := range l.vals {
+		f = append(f, hk.Hxs(v))
+	}
+	return f
+}
+
+func (w *world) handler(idx int) httpd.HandlerFunc {
 	return func(s *httpd.Store) {
 		cv, _ := w.ctxs.Load(s.R)
 		c := cv.(*reqCtx)
 		o := &c.o
 		o.ran++
-		o.who = who
-		if idx >= 0 {
-			if s.I == nil || s.I.Path != w.routes[idx].pat || s.I.Method != w.routes[idx].meth {
-				o.who = "badinfo"
-			}
-		} else if s.I == nil || s.I.Path != "" || s.I.Method != "" {
-			o.who = "badinfo"
-		}
-		o.vals = make([]string, len(allNames))
-		func() {
-			defer func() {
-				if recover() != nil {
-					o.who = "panic" // a Store accessor panicked (e.g. Params.Get indexing past V)
-				}
-			}()
-			o.status = s.W.Status
-			o.id = clone(s.GetID()) // GetID aliases the Store's buffer
-			o.any = s.RouteParamAny()
-			for i, n := range allNames {
-				o.vals[i] = s.RouteParam(n)
-			}
-		}()
+		c.idx = idx
+		o.look = w.read(s, idx)
+		o.own = o.look.status
 		o.ptr = uintptr(unsafe.Pointer(s))
-		f := []string{"B", strconv.Itoa(c.k), hk.Hxs(c.spec.path), hk.Hxs(c.spec.meth), o.who, strconv.Itoa(o.status), hk.Hxs(o.id), hk.Hxs(o.any)}
-		for _, v := range o.vals {
-			f = append(f, hk.Hxs(v))
-		}
-		w.event(f...)
+		w.event(append([]string{"B", strconv.Itoa(c.k), hk.Hxs(c.spec.path), hk.Hxs(c.spec.meth)}, o.look.fields()...)...)
 		if c.spec.entered != nil {
 			c.spec.signalEntered()
 			<-c.spec.release
 		}
+		flush := func() {
+			s.W.Flush()
+			if o.own == 0 {
+				o.own = http.StatusOK
+			}
+			w.event("F", strconv.Itoa(c.k))
+		}
+		if c.spec.flush == 1 {
+			flush()
+		}
 		if c.spec.code != 0 {
 			s.W.WriteHeader(c.spec.code)
+			o.own = c.spec.code
 			w.event("W", strconv.Itoa(c.k), strconv.Itoa(c.spec.code))
 		}
-		o.idExit = clone(s.GetID())
-		how := [...]string{"ret", "rec", "esc"}[c.spec.behave]
-		w.event("X", strconv.Itoa(c.k), how, hk.Hxs(o.idExit))
+		if c.spec.flush == 2 {
+			flush()
+		}
+		o.ownExit = o.own
+		o.exit = w.read(s, idx)
+		w.event(append([]string{"X", strconv.Itoa(c.k)}, o.exit.fields()...)...)
 		if c.spec.behave != bRet {
 			panic("handler panic of request " + strconv.Itoa(c.k))
 		}
 	}
+}
+
+// relay: Logger.Relay (recovers), or nothing (the panic leaves ServeHTTP); in both cases the Store is read once more
+// after the handler, before ServeHTTP resets it.
+func (w *world) relay(s *httpd.Store) {
+	cv, _ := w.ctxs.Load(s.R)
+	c, _ := cv.(*reqCtx)
+	if c == nil {
+		w.lg.Relay(s)
+		return
+	}
+	defer func() {
+		if c.o.ran == 0 {
+			return
+		}
+		if st := s.W.Status; st != c.o.own { // Logger.Relay: implicit 200 at REQ_END, 500 after a recovered panic
+			c.o.own = st
+			w.event("W", strconv.Itoa(c.k), strconv.Itoa(st))
+		}
+		c.o.after = w.read(s, c.idx)
+		how := [...]string{"ret", "rec", "esc"}[c.spec.behave]
+		w.event(append([]string{"Y", strconv.Itoa(c.k), how}, c.o.after.fields()...)...)
+	}()
+	if c.spec.behave == bEsc {
+		s.I.HandlerFunc(s) // a relay that does not recover: the panic leaves ServeHTTP
+		return
+	}
+	w.lg.Relay(s)
 }
 
 // register: false if Handle panicked
@@ -225,7 +289,7 @@ func (w *world) register(r route) (ok bool) {
 	}()
 	idx := len(w.routes)
 	w.routes = append(w.routes, r)
-	w.mux.Handle(r.pat, r.meth, w.handler("r"+strconv.Itoa(idx), idx))
+	w.mux.Handle(r.pat, r.meth, w.handler(idx))
 	w.event("R", hk.Hxs(r.pat), hk.Hxs(r.meth))
 	return true
 }
@@ -302,7 +366,7 @@ func (h *history) judge(e *hk.Env, st *stats) {
 			continue
 		}
 		if s.escaped != (s.spec.behave == bEsc) {
-			bad(fmt.Sprintf("panic escaped ServeHTTP = %v, handler behaviour %d", s.escaped, s.spec.behave))
+			st.escapeDiffers++ // informational only: whether ServeHTTP lets a handler panic through is not part of C05
 		}
 		fw := newWorld(false)
 		for _, r := range h.w.routes[:s.nroutes] {
@@ -326,8 +390,21 @@ func (h *history) judge(e *hk.Env, st *stats) {
 		if s.o.status != 0 {
 			bad(fmt.Sprintf("W.Status %d at handler entry", s.o.status))
 		}
-		if s.o.id != s.o.idExit {
-			bad(fmt.Sprintf("GetID changed during the request: %q then %q", s.o.id, s.o.idExit))
+		for _, again := range []struct {
+			when string
+			l    look
+			own  int
+		}{{"at handler exit", s.o.exit, s.o.ownExit}, {"in the relay after the handler", s.o.after, s.o.own}} {
+			l := again.l
+			if l.id != s.o.id {
+				bad(fmt.Sprintf("GetID changed during the request: %q then %q %s", s.o.id, l.id, again.when))
+			}
+			if l.who != s.o.who || l.any != s.o.any || strings.Join(l.vals, "\x00") != strings.Join(s.o.vals, "\x00") {
+				bad(fmt.Sprintf("route / params changed during the request: %s %q %q then %s %q %q %s", s.o.who, s.o.any, s.o.vals, l.who, l.any, l.vals, again.when))
+			}
+			if l.status != again.own {
+				bad(fmt.Sprintf("W.Status %d %s, the request itself made it %d", l.status, again.when, again.own))
+			}
 		}
 		if prev, dup := ids[s.o.id]; dup {
 			bad(fmt.Sprintf("GetID %q already given to request %d", s.o.id, prev))
@@ -356,6 +433,9 @@ func (h *history) judge(e *hk.Env, st *stats) {
 		case strings.HasPrefix(s.o.who, "r"):
 			st.matched++
 		}
+		if s.spec.flush != 0 {
+			st.flushes++
+		}
 		switch s.spec.behave {
 		case bRec:
 			st.recovered++
@@ -375,6 +455,7 @@ func (h *history) judge(e *hk.Env, st *stats) {
 
 type stats struct {
 	histories, requests, events, matched, noroute, recovered, escaped, withValues, distinctStores, violations int
+	escapeDiffers, flushes, rehandled, idOnlyRequests                                                           int
 	lateMoreParams, overlapForced                                                                                int
 }
 
@@ -388,7 +469,7 @@ func genRoutes(r *hk.Rng, n int) []route {
 		if i == n-1 && r.Chance(60) {
 			np = 3 // the last one tends to have the most params (registered late)
 		}
-		perm := []string{"a", "b", "c", "d", "e"}
+		perm := append([]string{}, paramPool...)
 		for j := len(perm) - 1; j > 0; j-- {
 			x := r.Intn(j + 1)
 			perm[j], perm[x] = perm[x], perm[j]
@@ -471,6 +552,9 @@ func genRequest(r *hk.Rng, routes []route) reqSpec {
 	if r.Chance(40) {
 		q.code = []int{200, 201, 404, 500}[r.Intn(4)]
 	}
+	if r.Chance(25) {
+		q.flush = 1 + r.Intn(2)
+	}
 	return q
 }
 
@@ -507,6 +591,11 @@ func sequentialHistory(e *hk.Env, r *hk.Rng, st *stats) {
 				maxp = p
 			}
 			continue
+		}
+		if r.Chance(6) { // the other two registrations, between requests: a new no-route info, the relay again
+			h.w.mux.HandleNoRoute(h.w.handler(-1))
+			h.w.mux.HandleRelay(h.w.relay)
+			st.rehandled++
 		}
 		q := genRequest(r, h.w.routes)
 		c, esc := h.w.serve(k, &q)
@@ -617,10 +706,11 @@ func run(e *hk.Env) error {
 	{
 		h := &history{w: newWorld(true), seq: true}
 		h.w.register(route{"/u/:a/:b", "GET"})
-		for i, q := range []reqSpec{{path: "/u/1/2", meth: "GET"}, {path: "/nope/x", meth: "GET"}, {path: "/u/1", meth: "GET"}} {
+		h.w.register(route{"/:id/:ID", "POST"})
+		for i, q := range []reqSpec{{path: "/u/1/2", meth: "GET"}, {path: "/nope/x", meth: "GET"}, {path: "/u/1", meth: "GET"}, {path: "/1/2", meth: "POST"}, {path: "/u/7/8", meth: "GET", flush: 1}} {
 			q := q
 			c, esc := h.w.serve(i, &q)
-			h.served = append(h.served, served{k: i, spec: q, nroutes: 1, o: c.o, escaped: esc})
+			h.served = append(h.served, served{k: i, spec: q, nroutes: 2, o: c.o, escaped: esc})
 		}
 		h.judge(e, &st)
 		h = &history{w: newWorld(true), seq: true}
@@ -662,6 +752,41 @@ func run(e *hk.Env) error {
 		}
 	}
 	e.Stats["concurrent_histories_8_goroutines"] = nConc
+
+	// one long history on ONE Mux, ids only: the i-th request must get prefix + base36(i), no repeats (a counter that
+	// wraps or is truncated before rendering shows here)
+	{
+		n := 60000
+		if e.Thorough() {
+			n = 400000
+		}
+		mux := httpd.NewMux()
+		var got string
+		mux.HandleNoRoute(func(s *httpd.Store) { got = clone(s.GetID()) })
+		seen := make(map[string]int, n)
+		req := &http.Request{Method: "GET", URL: &url.URL{Path: "/"}, RequestURI: "/", Header: http.Header{}}
+		rec := httptest.NewRecorder()
+		bad := 0
+		for i := 1; i <= n && bad < 3; i++ {
+			got = ""
+			mux.ServeHTTP(rec, req)
+			want := strconv.FormatUint(uint64(i), 36)
+			if j, dup := seen[got]; dup {
+				bad++
+				e.Case("VIOL", fmt.Sprintf("GetID_%q_of_request_%d_on_one_Mux_was_already_given_to_request_%d", got, i, j))
+			} else if len(got) < 10 || got[9:] != want {
+				bad++
+				e.Case("VIOL", fmt.Sprintf("GetID_%q_of_request_%d_on_one_Mux:_counter_part_is_not_base36(%d)=%q", got, i, i, want))
+			}
+			seen[got] = i
+		}
+		st.idOnlyRequests = n
+		st.violations += bad
+	}
+	e.Stats["id_only_history_requests_on_one_mux"] = st.idOnlyRequests
+	e.Stats["handler_panic_propagation_differs_from_relay_kind_(informational)"] = st.escapeDiffers
+	e.Stats["requests_with_Flush"] = st.flushes
+	e.Stats["HandleNoRoute_HandleRelay_again_between_requests"] = st.rehandled
 
 	races := raceReports(e)
 	for i, rep := range races {
